@@ -11,6 +11,8 @@
 #include <sys/wait.h>
 #include <unistd.h>
 
+#include <condition_variable>
+#include <mutex>
 #include <optional>
 #include <set>
 #include <sstream>
@@ -108,6 +110,46 @@ struct scan_spec {
 // compile-time barrier: get() is declared gnu::pure, keep calls apart (DESIGN 6 rule 7)
 inline void barrier() { asm volatile("" ::: "memory"); }
 
+// A second QSBR-registered thread that does nothing but pass through quiescent states on request.
+// With it registered, olc_db's reclamation is really deferred (with a single registered thread QSBR frees at
+// once), so the OLC clause of C01 - "a value view stays readable and unchanged at least until the caller's
+// next quiescent state", even when the caller itself removes the entry - and the "plus whatever awaits
+// deferred reclamation" clause of C10 are exercised by the sequential histories too. Strict hand-over:
+// the companion only runs while the main thread waits for it.
+class companion {
+ public:
+  companion() : th([this] { loop(); }) { wait_idle(); }
+  void quiesce() { command(1); }
+  void stop() { command(2); th.join(); }
+
+ private:
+  void loop() {
+    std::unique_lock lk(m);
+    started = true;
+    cv.notify_all();
+    for (;;) {
+      cv.wait(lk, [this] { return cmd != 0; });
+      const int c = cmd;
+      if (c == 1) unodb::this_thread().quiescent();
+      cmd = 0;
+      cv.notify_all();
+      if (c == 2) return;
+    }
+  }
+  void wait_idle() { std::unique_lock lk(m); cv.wait(lk, [this] { return started && cmd == 0; }); }
+  void command(int c) {
+    std::unique_lock lk(m);
+    cmd = c;
+    cv.notify_all();
+    cv.wait(lk, [this] { return cmd == 0; });
+  }
+  std::mutex m;
+  std::condition_variable cv;
+  int cmd{0};
+  bool started{false};
+  unodb::qsbr_thread th;
+};
+
 template <class Db>
 class history {
   using I = dbinfo<Db>;
@@ -122,6 +164,7 @@ class history {
     if (uni.keys.size() > 600) nops *= 3;
     scan_rate = a.dbl("scanrate", g_prop == "C02" ? 0.35 : 0.06);
     tag = std::string(I::name) + "." + keyconv<K>::name;
+    if constexpr (I::olc) with_companion = a.num("companion", 1) != 0 && r.chance(0.5);
   }
 
   bool poisoned{false};
@@ -133,10 +176,17 @@ class history {
       // broken state and take the report with it
       auto* db = new Db;
       dbp = db;
+      if (with_companion) { vm::alloc_tracker::scoped_ignore ig; comp = new companion; rep().count("histories_with_companion_thread"); }
       phase_plan();
       for (op = 0; op < nops && ok; ++op) step();
       if (ok) final_checks();
+      if (ok && comp != nullptr) {
+        check_held();
+        drain();
+        if (ok) check_stats();
+      }
       held.clear();
+      if (ok && comp != nullptr) { vm::alloc_tracker::scoped_ignore ig; comp->stop(); delete comp; comp = nullptr; }  // after a violation: leaked with the index
       dbp = nullptr;
       if (ok) delete db;
       else poisoned = true;
@@ -243,6 +293,7 @@ class history {
   }
 
   void do_insert() {
+    if (comp != nullptr) deferred_possible = true;
     bytes k = r.chance(0.12) && !model.empty() ? pick_present() : r.pick(uni.keys);
     if (!admissible_after_insert(k)) { rep().count("inadmissible_steps_replaced"); return do_get(); }
     const bytes v = random_value();
@@ -264,11 +315,14 @@ class history {
   }
 
   void do_remove() {
+    if (comp != nullptr) deferred_possible = true;
     bytes k = !model.empty() && r.chance(0.8) ? pick_present() : r.pick(uni.keys);
     if (!admissible_after_remove(k)) { rep().count("inadmissible_steps_replaced"); return do_get(); }
     const bool want = model.count(k) != 0;
     // views into the entry end with it (olc: single registered thread frees at once)
-    if (want) held.erase(std::remove_if(held.begin(), held.end(), [&](const held_view& h) { return h.key == k; }), held.end());
+    // (with the companion thread registered the free is deferred: the views must survive until this thread's next quiescent state)
+    if (want && comp == nullptr) held.erase(std::remove_if(held.begin(), held.end(), [&](const held_view& h) { return h.key == k; }), held.end());
+    if (want && comp != nullptr) for (const auto& h : held) if (h.key == k) { rep().count("views_held_across_own_remove"); break; }
     barrier();
     const bool got = dbp->remove(keyconv<K>::to(k));
     barrier();
@@ -345,6 +399,7 @@ class history {
   }
 
   void do_clear() {
+    if (comp != nullptr) return do_get();  // olc_db::clear() is documented as legal only while a single thread is registered
     held.clear();
     dbp->clear();
     model.clear();
@@ -361,12 +416,29 @@ class history {
   void do_quiescent() {
     if constexpr (I::olc) {
       held.clear();  // olc views are promised only until the caller's next quiescent state
+      if (comp != nullptr && r.chance(0.5)) {
+        drain();
+        trace.push_back(json::object().set("op", "drain"));
+        return;
+      }
       unodb::this_thread().quiescent();
+      if (comp != nullptr && r.chance(0.5)) comp->quiesce();
       trace.push_back(json::object().set("op", "quiescent"));
       rep().count("quiescent_calls");
     } else {
       do_get();
     }
+  }
+
+  // three rounds in which every registered thread passes through a quiescent state: nothing may await reclamation afterwards
+  void drain() {
+    held.clear();
+    for (int round = 0; round < 3; ++round) {
+      unodb::this_thread().quiescent();
+      comp->quiesce();
+    }
+    deferred_possible = false;
+    rep().count("companion_drains");
   }
 
   void check_held() {
@@ -428,9 +500,15 @@ class history {
       return fail("C10", "memory-use/reported", "reported memory use differs from the summed node sizes of the expected tree",
                   json::object().set("reported", static_cast<u64>(reported)).set("expected", static_cast<u64>(mem)));
     const auto held_bytes = vm::alloc_tracker::get().bytes_live() - base_live;
-    if (held_bytes != reported)
+    if (comp != nullptr && deferred_possible) {
+      // "the reported memory use plus whatever awaits deferred reclamation": exact again after the next drain
+      if (held_bytes < reported)
+        return fail("C10", "memory-use/allocator", "bytes held from the allocator are fewer than the reported memory use",
+                    json::object().set("allocator", static_cast<u64>(held_bytes)).set("reported", static_cast<u64>(reported)));
+      rep().count("stats_checks_with_deferred_reclamation");
+    } else if (held_bytes != reported)
       return fail("C10", "memory-use/allocator", "bytes held from the allocator differ from the reported memory use",
-                  json::object().set("allocator", static_cast<u64>(held_bytes)).set("reported", static_cast<u64>(reported)));
+                  json::object().set("allocator", static_cast<u64>(held_bytes)).set("reported", static_cast<u64>(reported)).set("after_drain", comp != nullptr));
     const auto g = dbp->get_growing_inode_counts();
     const auto s = dbp->get_shrinking_inode_counts();
     for (std::size_t c = 0; c < 4; ++c) {
@@ -691,6 +769,9 @@ class history {
   unsigned classes_seen{0}, deepest{0};
   int scan_samples{0};
   std::size_t base_live{vm::alloc_tracker::get().bytes_live()};
+  bool with_companion{false};
+  bool deferred_possible{false};  // something may have been retired since the last drain
+  companion* comp{nullptr};
 };
 
 // ---------------------------------------------------------------- directed
